@@ -711,8 +711,9 @@ class tensor:
             )
         rprod = 1 if rdims.size == 0 else np.prod(np.array(tshape)[rdims])
         cprod = 1 if cdims.size == 0 else np.prod(np.array(tshape)[cdims])
+        # Transpose directly (permute copies) so copy=False can still share the data
         data = np.reshape(
-            self.permute(dims).data,
+            to_memory_order(np.transpose(self.data, dims), self.order),
             (rprod, cprod),
             order=self.order,
         )
@@ -1273,9 +1274,11 @@ class tensor:
 
         # Np transpose does error checking on order, acts as permutation
 
-        return ttb.tensor(
-            to_memory_order(np.transpose(self.data, order), self.order), copy=False
-        )
+        data = to_memory_order(np.transpose(self.data, order), self.order)
+        if np.may_share_memory(data, self.data):
+            # Identity permutation yields a view, result must not alias self
+            data = data.copy(order=self.order)
+        return ttb.tensor(data, copy=False)
 
     def reshape(self, shape: Shape) -> tensor:
         """
